@@ -55,6 +55,8 @@ package memkv
 //@   modifies inferred:(*batch).PutIfNotExist ghost.bget
 //@   ensures [armed-batches-ignore-the-operation] old(b.err) != nil ==> b.err == old(b.err)
 //@   ensures [takes-effect-exactly-when-the-key-is-absent] old(b.err) == nil ==> (b.err == nil) == is_nil(bget)
+// the creator reads the stored index value and the position out of the refusal
+//@   ensures [refusal-carries-the-stored-value] old(b.err) == nil && b.err != nil ==> typeis(b.err, "*storage.Conflict") && asptr(b.err, "*storage.Conflict").Val == bget
 //@   ensures [refusal-is-a-failed-condition] old(b.err) == nil && b.err != nil ==> err_is(b.err, storage.ErrCASFailed)
 //@   ensures [store-untouched] skl_writes == old(skl_writes)
 
